@@ -95,6 +95,24 @@ def run(ctx):
             if bad:
                 ctx.fail('random_clifford_state', 'invalid tableau: %s' % bad, dict(N=n, rows=impl.ops_of(st)))
             ctx.case(('random-ctors', n, _), True)
+    # constructors hand out fresh objects: changing one in place must not affect the next one built
+    for _ in range(ctx.budget(40, 400)):
+        n = rng.choice([1, 2, 3, 4])
+        for name, mk in (('zero_state', lambda: pc.zero_state(n)), ('one_state', lambda: pc.one_state(n)), ('maximally_mixed_state', lambda: pc.maximally_mixed_state(n)),
+                         ('identity_map', lambda: pc.identity_map(n)), ('ghz_state', (lambda: pc.ghz_state(n)) if n >= 2 else None)):
+            if mk is None:
+                continue
+            a = mk()
+            va = (impl.ops_of(a), int(getattr(a, 'r', 0)))
+            a.rotate_by(impl.pauli(G.rand_herm(rng, n, nonid=True)))
+            a.transform_by(impl.cmap(G.rand_map_ops(rng, n)))
+            if hasattr(a, 'measure'):
+                R.seed_numba(rng.randrange(1 << 30))
+                a.measure(impl.plist([G.rand_herm(rng, n, nonid=True)], n))
+            b = mk()
+            if (impl.ops_of(b), int(getattr(b, 'r', 0))) != va:
+                ctx.fail(name, 'constructor result depends on what was done in place to an earlier result', dict(N=n, first=va, second=(impl.ops_of(b), int(getattr(b, 'r', 0)))))
+            ctx.case(('fresh', name, n, _), True)
     # stabilizer_state
     for _ in range(ctx.budget(250, 3000)):
         n = rng.choice([1, 2, 3, 4, 5, 6])
